@@ -1252,6 +1252,16 @@ class Interp:
             o = self.eval(t.value, env)
             cur = self.getattr(o, t.attr)
             new = self.eval(st.value, env)
+            if isinstance(cur, SArr):
+                # numpy in-place operator on an attribute: the array object is updated (every holder of it sees the
+                # change) and the attribute is re-bound to the same object
+                res = A.pointwise(op, cur, new)
+                rf = res.snapshot()
+                if cur.dtype == "int" and res.dtype == "real":
+                    raise Unsupported("in-place op changing int array to real")
+                cur.assign_fn(rf)
+                self.setattr(o, t.attr, cur)
+                return
             self.setattr(o, t.attr, self.binop(op, cur, new))
         else:
             raise Unsupported("augassign target")
@@ -1323,8 +1333,15 @@ class Interp:
                 raise Unsupported("list store at symbolic index")
             o[k] = v
         elif isinstance(o, dict):
-            if isinstance(k, Sym):
-                raise Unsupported("dict store at symbolic key")
+            if isinstance(k, Sym) or any(isinstance(kk, Sym) for kk in o):
+                # symbolic keys: the store replaces the entry whose key equals k (decided per path), else inserts k
+                self.frame_write(o, k)
+                for kk in list(o):
+                    if isinstance(kk, (Sym, int)) and not isinstance(kk, bool) and (kk is k or self.truth(self.cmp("==", k, kk))):
+                        o[kk] = v
+                        return
+                o[k] = v
+                return
             self.frame_write(o, k)
             kk = self.dict_key(o, k)
             o[k if kk is _MISSING else kk] = v
@@ -1746,6 +1763,9 @@ class Interp:
         if isinstance(container, (dict, set, frozenset)):
             if isinstance(item, Sym):
                 return V.sor(*[V.compare("==", item, k) for k in container if is_num(k)]) if container else False
+            if is_num(item) and not isinstance(item, bool) and any(isinstance(k, Sym) for k in container):
+                # concrete number against symbolic keys
+                return V.sor(*[V.compare("==", item, k) for k in container if is_num(k)])
             return item in container
         if isinstance(container, (list, tuple)):
             rs = []
@@ -1828,6 +1848,15 @@ class Interp:
             except TypeError:
                 raise PyRaise(self.make_exc("TypeError", f"indices must be integers, not {type(k).__name__}"))
         if isinstance(o, dict):
+            if (isinstance(k, Sym) or (is_num(k) and not isinstance(k, bool))) and any(isinstance(kk, Sym) for kk in o):
+                # a dict with symbolic keys: the entry whose key equals k, decided per path; KeyError when none does
+                for kk in list(o):
+                    if kk is k:
+                        return o[kk]
+                for kk in list(o):
+                    if (isinstance(kk, Sym) or is_num(kk)) and self.truth(self.cmp("==", k, kk)):
+                        return o[kk]
+                raise PyRaise(self.make_exc("KeyError", k))
             if isinstance(k, Sym):
                 # symbolic key over a dict with concrete numeric keys: the key must be one of them (safety obligation),
                 # the value is selected by an if-chain
